@@ -168,7 +168,14 @@ type E3KV struct {
 	Key    string
 	KeyBin bool // encode the key as bin instead of str (msgpack only)
 	Val    E3Val
+	// KeyWidth forces the str/bin header width of the KEY on the msgpack wire: 0 =
+	// minimal (as before), 8/16/32 = str8/str16/str32 (non-minimal but legal encodings).
+	// Round 3, additive; the decoder does not fill it. For VALUES use VStrW.
+	KeyWidth int
 }
+
+// KVW is KV with a forced key header width (see E3KV.KeyWidth).
+func KVW(k string, keyWidth int, v E3Val) E3KV { return E3KV{Key: k, Val: v, KeyWidth: keyWidth} }
 
 func VNil() E3Val                { return E3Val{Kind: KNil} }
 func VBool(b bool) E3Val         { return E3Val{Kind: KBool, Bool: b} }
@@ -376,9 +383,9 @@ func e3AppendMsgpack(b []byte, v E3Val) []byte {
 		}
 		for _, kv := range v.Map {
 			if kv.KeyBin {
-				b = append(e3AppendBinHeader(b, len(kv.Key), 0), kv.Key...)
+				b = append(e3AppendBinHeader(b, len(kv.Key), kv.KeyWidth), kv.Key...)
 			} else {
-				b = append(e3AppendStrHeader(b, len(kv.Key), 0), kv.Key...)
+				b = append(e3AppendStrHeader(b, len(kv.Key), kv.KeyWidth), kv.Key...)
 			}
 			b = e3AppendMsgpack(b, kv.Val)
 		}
